@@ -88,6 +88,20 @@ func (n *reNode) Close(ctx context.Context) error {
 
 type plainPayload struct{ N int }
 
+// loopPayload is a user-defined Gateable whose composite is Gateable again and carries the
+// event type of the pipeline the filter sits in: emitted through the Broker it would come
+// straight back to the same filter.
+type loopPayload struct {
+	ID    string
+	Flush bool
+}
+
+func (p *loopPayload) GetID() string    { return p.ID }
+func (p *loopPayload) FlushEvent() bool { return p.Flush }
+func (p *loopPayload) ComposeFrom(events []*el.Event) (el.EventType, interface{}, error) {
+	return "ta", &loopPayload{ID: "composite"}, nil
+}
+
 type reDesc struct {
 	Pipeline []string `json:"pipeline_ta_p0"`
 	Reentry  []string `json:"reentry_points"`
@@ -177,6 +191,9 @@ func runReentrant(rc *RunCtx) {
 			st = step{kind: "send-gateable", id: []string{"a", "b", "c"}[tp.Choose(3, "gid")], flag: tp.Choose(5, "flush") == 0}
 		case 4:
 			st = step{kind: "send-plain"}
+			if tp.Choose(2, "loop-gateable") == 0 {
+				st = step{kind: "send-loop-gateable", id: []string{"x", "y"}[tp.Choose(2, "gid")], flag: tp.Choose(5, "flush") == 0}
+			}
 		case 5, 6:
 			st = step{kind: "sleep", d: []time.Duration{time.Second, 3 * time.Second, 11 * time.Second}[tp.Choose(3, "d")]}
 		case 7, 8:
@@ -207,6 +224,9 @@ func runReentrant(rc *RunCtx) {
 			switch st.kind {
 			case "send-gateable":
 				broker.Send(ctx, "ta", &gated.Payload{ID: st.id, Flush: st.flag, Detail: map[string]interface{}{"k": "v"}})
+				pending++
+			case "send-loop-gateable":
+				broker.Send(ctx, "ta", &loopPayload{ID: st.id, Flush: st.flag})
 				pending++
 			case "send-plain":
 				broker.Send(ctx, "ta", &plainPayload{})
